@@ -1,6 +1,7 @@
 package main
 
 import (
+	"strings"
 	"bytes"
 	"encoding/json"
 	"fmt"
@@ -70,6 +71,27 @@ func runC16(c *Ctx) {
 	coreHeader(c, 0)
 	vg := &ValGen{r: c.rng}
 	cfg := Cfg{WithJSON: true}
+	// entries whose encoded body is just below, at and above 128 bytes (the length prefix grows a byte):
+	// in arrays, in maps under short and long keys, nested, as struct fields
+	for n := 100; n <= 140; n++ {
+		str := strings.Repeat("x", n)
+		vals := []any{
+			[]any{str}, map[string]any{"k": str}, map[string]any{str: true}, []any{[]any{str}, 1.5},
+			map[string]any{"a": map[string]any{"b": str}}, []any{map[string]any{"key": str}, nil},
+		}
+		for _, x := range vals {
+			var t reflect.Type
+			if _, isArr := x.([]any); isArr {
+				t = tJSONArr
+			} else {
+				t = tJSONMap
+			}
+			v := reflect.New(t).Elem()
+			v.Set(reflect.ValueOf(x))
+			c.addRT(newTypeCase(t, cfg), v, "json-entry-boundary")
+			c.addLaws(newTypeCase(t, cfg), v, "json-entry-boundary-laws")
+		}
+	}
 	types := []reflect.Type{tJSONMap, tJSONArr, reflect.TypeOf(JSONHolder{}), reflect.TypeOf(JSONNested{})}
 	n := scale(c, 500, 12000)
 	for i := 0; i < n; i++ {
